@@ -79,3 +79,37 @@ func HarnessC10Literal() {
 		vAssert(out[i] != '<' && out[i] != '>', "no-raw-angle-brackets-in-output")
 	}
 }
+
+// HarnessC10Tree: the literal passed as an insert argument, inside an insert block, or as a component argument.
+func HarnessC10Tree() {
+	vfsReset()
+	q := []byte{'"', '\''}[vChoice("quote", 2)]
+	body, text := symLiteral(vParam("K"), q)
+	raw := vChoice("raw", 2) == 1
+	lit := string([]byte{q}) + body + string([]byte{q})
+	if raw {
+		lit += ".raw()"
+	}
+	vfsWriteFile("templates/layouts/l.tw", "[@reserve(\"r\")]")
+	vfsWriteFile("templates/components/c.tw", "<{{ a }}>")
+	var page, pre, post string
+	switch vChoice("context", 3) {
+	case 0:
+		page, pre, post = "@use(\"~l\")@insert(\"r\", "+lit+")", "[", "]"
+	case 1:
+		page, pre, post = "@use(\"~l\")@insert(\"r\")x{{ "+lit+" }}y@end", "[x", "y]"
+	default:
+		page, pre, post = "@component(\"~c\", {a: "+lit+"})", "<", ">"
+	}
+	vfsWriteFile("templates/page.tw", page)
+	tpl, err := newTemplate("templates", ".tw")
+	vAssert(err == nil && tpl != nil, "tree-loads")
+	out, ferr := tpl.String("page", nil)
+	vCover("rendered")
+	vAssert(ferr == nil, "page-renders")
+	if raw {
+		vAssert(vEqStr(out, pre+text+post), "raw-yields-exactly-the-original-text")
+	} else {
+		vAssert(vEqStr(out, pre+refEscapeLiteral(text)+post), "literal-is-html-escaped-with-quotes-as-written")
+	}
+}
